@@ -418,22 +418,7 @@ fn corr(r: &mut Rng, thorough: bool, o: &mut Out) {
         o.case(18, "affine*el", cat(&[&ma, &enc_els(&els)]), enc_els(&byel), els.len() > 1, &tag);
         o.case(19, "affine*ellipse", cat(&[&ma, &mb]), ellipse_inner(&(a * Ellipse::from_affine(b))), !ident(&ma), det_tag(a));
         let rad = Ellipse::from_affine(a).radii();
-        // Affine::svd takes the minor radius as sqrt(0.5 (s1 - s2)); another property's repair
-        // (C10-svd-minor-radius) takes (|det| / major).min(major). The model holds both (equal over the reals,
-        // theorem C12_svd_variants_agree); the output is compared with the one it exhibits.
-        let by_det = {
-            let (a_, b_, c_, d_) = (ma[0], ma[1], ma[2], ma[3]);
-            let (a2, b2, c2, d2) = (a_ * a_, b_ * b_, c_ * c_, d_ * d_);
-            let (ab, cd) = (a_ * b_, c_ * d_);
-            let s1 = a2 + b2 + c2 + d2;
-            let s2 = ((a2 - b2 + c2 - d2).powi(2) + 4.0 * (ab + cd).powi(2)).sqrt();
-            let x = (0.5 * (s1 + s2)).sqrt();
-            let y_det = if x == 0.0 { 0.0 } else { ((a_ * d_ - b_ * c_).abs() / x).min(x) };
-            let y_sqrt = (0.5 * (s1 - s2)).sqrt();
-            let same = |u: f64, v: f64| u == v || (u.is_nan() && v.is_nan());
-            same(rad.y, y_det) && !same(rad.y, y_sqrt)
-        };
-        o.case(if by_det { 66 } else { 20 }, "svd-radii", ma.to_vec(), vec![rad.x, rad.y], a.determinant() != 0.0, &format!("{},{}", det_tag(a), if by_det { "minor=|det|/major" } else { "minor=sqrt(0.5(s1-s2))" }));
+        o.case(20, "svd-radii", ma.to_vec(), vec![rad.x, rad.y], a.determinant() != 0.0, &format!("{},{}", det_tag(a), if rad.x == rad.y { "minor clamped to major" } else if rad.x == 0.0 { "zero map" } else { "minor=|det|/major" }));
         let e = Ellipse::from_affine(a);
         let mut ev = ellipse_inner(&(e + t));
         ev.extend(ellipse_inner(&(e - t)));
@@ -482,14 +467,7 @@ fn corr(r: &mut Rng, thorough: bool, o: &mut Out) {
             [q.top_left, q.top_right, q.bottom_right, q.bottom_left].iter().any(|x| *x == m)
         };
         let rtag = format!("{},{}", st, if clamped { "clamped" } else { "unclamped" });
-        // negative scale: the pinned tree leaves every radius at its corner (variant 65), the property
-        // wants it carried to the diagonally opposite corner (variant 41); the law decides
-        let q = rr.radii();
-        let pinned = RoundedRect::from_rect(ts * rr.rect(), ts * q);
-        let turned = RoundedRect::from_rect(ts * rr.rect(), ts * RoundedRectRadii::new(q.bottom_right, q.bottom_left, q.top_left, q.top_right));
-        let unturned = ts.scale < 0.0 && im == pinned && im != turned;
-        let rtag = format!("{}{}", rtag, if unturned { ",radii not turned (pinned)" } else { "" });
-        o.case(if unturned { 65 } else { 41 }, "ts*rounded-rect", cat(&[&e1, &enc_rect(&rr.rect()), &enc_radii(&rr.radii())]), cat(&[&enc_rect(&im.rect()), &enc_radii(&im.radii())]), true, &rtag);
+        o.case(41, "ts*rounded-rect", cat(&[&e1, &enc_rect(&rr.rect()), &enc_radii(&rr.radii())]), cat(&[&enc_rect(&im.rect()), &enc_radii(&im.radii())]), true, &rtag);
         o.case(42, "ts*radii", cat(&[&e1, &enc_radii(&rr.radii())]), enc_radii(&(ts * rr.radii())), true, st);
         let mut cv = enc_ts(&TranslateScale::scale(s));
         cv.extend(enc_ts(&TranslateScale::translate(t)));
@@ -510,12 +488,7 @@ fn corr(r: &mut Rng, thorough: bool, o: &mut Out) {
         o.case(50, "rotate", vec![th], co(Affine::rotate(th)).to_vec(), true, "");
         o.case(51, "rotate_about", cat(&[&[th], &pv(c)]), co(Affine::rotate_about(th, c)).to_vec(), true, "");
         o.case(52, "pre_rotate", cat(&[&ma, &[th]]), co(a.pre_rotate(th)).to_vec(), true, "");
-        // pre_rotate_about: the pinned tree computes T * self. The model holds both variants; the
-        // output is compared with the variant it exhibits (the law `pre_then` decides which one the
-        // property accepts).
-        let pra = a.pre_rotate_about(th, c);
-        let as_then = co(pra) == co(a.then_rotate_about(th, c));
-        o.case(if as_then { 64 } else { 53 }, "pre_rotate_about", cat(&[&ma, &[th], &pv(c)]), co(pra).to_vec(), true, if as_then { "T*self (pinned)" } else { "self*T" });
+        o.case(53, "pre_rotate_about", cat(&[&ma, &[th], &pv(c)]), co(a.pre_rotate_about(th, c)).to_vec(), true, "");
         o.case(54, "then_rotate", cat(&[&ma, &[th]]), co(a.then_rotate(th)).to_vec(), true, "");
         o.case(55, "then_rotate_about", cat(&[&ma, &[th], &pv(c)]), co(a.then_rotate_about(th, c)).to_vec(), true, "");
         // reflect depends on the direction of its axis only: the magnitude is swept over the whole
@@ -550,12 +523,9 @@ fn corr(r: &mut Rng, thorough: bool, o: &mut Out) {
             let tag = format!("{},{}", det_tag(a), if in_range { "x_rotation in (-pi/2,pi/2]" } else { "x_rotation outside" });
             let args = cat(&[&ma, &enc_arc(&arc)]);
             o.case(60, "affine*arc-ellipse", args.clone(), vec![im.center.x, im.center.y, im.radii.x, im.radii.y, im.x_rotation], true, &tag);
-            // start and sweep angle: the pinned tree copies them (variant 62, complete pinned model);
-            // otherwise they are compared with the re-derived ones, away from the branch cut of atan2
-            if im.start_angle == arc.start_angle && im.sweep_angle == arc.sweep_angle {
-                o.case(62, "affine*arc-angles", args, vec![im.center.x, im.center.y, im.radii.x, im.radii.y, im.start_angle, im.sweep_angle, im.x_rotation], true, &format!("{},copied (pinned)", tag));
-            } else if im.start_angle.abs() < PI - 0.02 {
-                o.case(61, "affine*arc-angles", args, vec![im.start_angle, im.sweep_angle], true, &format!("{},re-derived", tag));
+            // start and sweep angle, away from the branch cut of atan2
+            if im.start_angle.abs() < PI - 0.02 {
+                o.case(61, "affine*arc-angles", args, vec![im.start_angle, im.sweep_angle], true, &tag);
             }
         }
         if let Some(PathEl::MoveTo(p0)) = arc.path_elements(0.1).next() {
